@@ -6,7 +6,7 @@
 From Coq Require Import NArith List Bool.
 From Snap.Crc Require Import CrcModel CrcProofs.
 From Snap.Codec Require Import Varint CodecModel.
-From Snap.Content Require Import CrcBurstBytes NoConfModel RejectCodec TruncCodec.
+From Snap.Content Require Import CrcBurstBytes NoConfModel RejectCodec TruncCodec StringBounds.
 Import ListNotations.
 Local Open Scope N_scope.
 
@@ -39,3 +39,23 @@ Proof. exact real_file_truncations. Qed.
 (* non-vacuity: a content file written by the real binary is loaded by the model *)
 Example C09_decode_nonvacuous : (exists s, decode noconf real_file = Ok s) /\ bytes real_file /\ length real_file = 128%nat.
 Proof. exact real_file_loaded. Qed.
+
+(* --- the string reads of the loader stay inside their buffers (the model's part of "no memory-unsafe behaviour") ----- *)
+(* CodecModel.getstr is Varint.sgetbs; an accepted string is SHORTER than the buffer, so str[0..len-1] and str[len] = 0 are
+   inside; PATH_MAX / UUID_MAX are the two capacities.  Breaks if Varint.sgetbs is weakened to accept len = size. *)
+Theorem C09_getstr_is_sgetbs : forall size l, getstr size l = sgetbs size l.
+Proof. exact getstr_is_sgetbs. Qed.
+Print Assumptions C09_getstr_is_sgetbs.
+
+Theorem C09_string_write_in_bounds : forall size inp s rest, size < 2^32 -> getstr size inp = Ok (s, rest) -> N.of_nat (length s) < size.
+Proof. exact string_write_in_bounds. Qed.
+Print Assumptions C09_string_write_in_bounds.
+
+Theorem C09_sgetbs_never_oob : forall size l, size < 2^32 -> sgetbs_oob size l = false.
+Proof. exact sgetbs_never_oob. Qed.
+Print Assumptions C09_sgetbs_never_oob.
+
+Example C09_string_boundary :
+  (exists s rest, getstr 128 ([127; 128] ++ repeat 85 127) = Ok (s, rest) /\ length s = 127%nat) /\
+  (forall t, getstr 128 ([0; 129] ++ t) = Bad) /\ (forall t, getstr 4096 ([0; 160] ++ t) = Bad).
+Proof. exact string_boundary. Qed.
